@@ -682,6 +682,18 @@ func randOps(r *Rng, alpha []bop, maxLen int) []bop {
 		if r.Chance(15) && (ops[i].tag == "w" || ops[i].tag == "ss" || ops[i].tag == "us") {
 			ops[i].p = randBytes(r, alphaM, 12)
 		}
+		if r.Chance(3) && (ops[i].tag == "w" || ops[i].tag == "ss" || ops[i].tag == "us") {
+			// a long payload, of a length on either side of the sizes at which bulk paths and
+			// storage growth usually switch (powers of two): random symbols at both ends, filler between
+			L := []int{63, 64, 65, 127, 128, 255, 256, 257, 300, 511, 512, 513, 1023, 1024, 2048, 4096}[r.Intn(16)]
+			head, tail := randBytes(r, alphaM, 6), randBytes(r, alphaM, 4)
+			fill := L - len(head) - len(tail)
+			if fill < 0 {
+				fill = 0
+			}
+			p := append(append(append([]byte{}, head...), bytes.Repeat([]byte("y"), fill)...), tail...)
+			ops[i].p = p
+		}
 		if ops[i].tag == "us" || ops[i].tag == "ss" {
 			// which of the equivalent entry points is used (string / bytes / io.Writer / io.StringWriter)
 			ops[i].n = r.Intn(4)
